@@ -54,6 +54,7 @@ type Point struct {
 type Sched struct {
 	mu       sync.Mutex
 	Active   bool
+	Fine     bool // statement-level scheduling points (Pt) are live
 	Free     bool // free-running mode (race pass): no scheduler at all, modelled objects use the real primitives
 	threads  []*Thread
 	byGid    map[uint64]*Thread
@@ -307,8 +308,15 @@ func (mo *Monitor) Wake(f func()) {
 	mo.mu.Unlock()
 }
 
-// Pt is a pure scheduling point.
-func Pt(l string) { Gate("pt", l, nil, nil) }
+// Pt is a pure scheduling point at a statement of the code under test (inserted by tools/finepts). It exists only in
+// fine mode (S.Fine, switched on by the scenarios that explore interleavings between synchronisation operations);
+// everywhere else it returns at once.
+func Pt(l string) {
+	if !S.Fine || S.Free {
+		return
+	}
+	Gate("pt", l, nil, nil)
+}
 
 // Quiet runs f - harness code observing the world between two requests, at quiescence - without creating
 // scheduling points, so that an execution meets the same points whether or not it is observed.
